@@ -111,6 +111,9 @@ class Emitter:
         self.declared = set()
         self.last_leaf_line = -1
         self.topdown = False
+        self.multikey = False
+        self.grouped = False
+        self.ntag = 0
 
     def struct(self, name, fields):
         lines = []
@@ -118,6 +121,10 @@ class Emitter:
         for f in fields:
             if f[0] == "leaf":
                 tag = ' `parquet:"%s"`' % f[3] if f[3] else ""
+                self.ntag += 1
+                if f[3] and self.multikey and self.ntag % 2 == 0:
+                    # another key in front of the parquet key, as structs shared with encoding/json have
+                    tag = ' `json:"%s,omitempty" parquet:"%s"`' % (f[2].lower(), f[3])
                 lines.append("\t%s %s%s%s" % (f[2], REP_PREFIX[f[1]], f[4], tag))
                 self.last_leaf_line = len(lines) - 1
             elif f[0] == "group":
@@ -156,6 +163,8 @@ class Emitter:
                 elif how == "embedded-unexported":
                     # an embedded struct whose type name is unexported is an unexported field
                     lines.append("\t%s" % gt)
+                elif how == "dash" and self.multikey:
+                    lines.append('\tX%d %s `json:"-" parquet:"-"`' % (self.nx, gt))
                 elif how == "dash":
                     lines.append('\tX%d %s `parquet:"-"`' % (self.nx, gt))
                 elif how == "underscore":
@@ -172,12 +181,18 @@ class Emitter:
         if imports:
             imp = "import (\n" + "".join('\t"%s"\n' % i for i in imports) + ")\n\n"
         types = list(reversed(self.types)) if self.topdown else self.types  # top-down: outer types are declared before the types they use
+        if self.grouped:
+            # one parenthesised declaration:  type ( Rec struct{...}; TN2 struct{...} )
+            body = "\n".join(t.replace("type ", "", 1) for t in types)
+            return "package %s\n\n%s%stype (\n%s)\n" % (self.pkg, imp, extra, body)
         return "package %s\n\n%s%s%s" % (self.pkg, imp, extra, "\n".join(types))
 
 
-def emit(pkg, fields, prim_offset=0, imports=(), tag_all=False, prims=None, extra="", topdown=False):
+def emit(pkg, fields, prim_offset=0, imports=(), tag_all=False, prims=None, extra="", topdown=False, multikey=False, grouped=False):
     e = Emitter(pkg)
     e.topdown = topdown
+    e.multikey = multikey
+    e.grouped = grouped
     return e.source(annotate(fields, prims=prims, prim_offset=prim_offset, tag_all=tag_all), imports, extra)
 
 
@@ -263,6 +278,12 @@ def enum_e3():
             out.append([E(L("r"), L("o")), G(gr, L("r"), G(ir, L("r")))])
             out.append([L("o"), E(L("r"), G(gr, L("r"), L("o"))), G(ir, L("r"))])
     out.append([E(E(L("r")), L("o")), L("p")])
+    # chains of optional groups: max definition level 8 and 15 (4-bit levels, the widest the level codec takes)
+    for depth in (7, 14):
+        ch = [L("o"), L("r")]
+        for _ in range(depth):
+            ch = [G("o", *ch)]
+        out.append([L("r")] + ch)
     out.append([L("r"), L("o"), L("p"), L("r"), L("o"), L("p"), L("r"), L("o"), L("p")])
     return out
 
